@@ -114,7 +114,7 @@ def engine_cases(chk):
             for shape in ("single", "set", "nested", "shadow"):
                 cases.append({"fam": "engine", "rdef": rdef, "resource": res, "strict": strict, "shape": shape})
     if chk.tier == "quick":
-        cases = [c for i, c in enumerate(cases) if i % 2 == chk.seed % 2 or c["shape"] == "single"]
+        cases = [c for i, c in enumerate(cases) if i % 2 == chk.seed % 2 or c["shape"] in ("single", "shadow")]
     return cases
 
 
